@@ -91,6 +91,7 @@ func newCreateTable(ct sql.CreateTableStmt) *Schema {
 		WithoutRowid: ct.WithoutRowid,
 	}
 	autoindex := 1
+	var deferredPK []IndexColumn // WITHOUT ROWID only
 	for _, c := range ct.Columns {
 		col := TableColumn{
 			Column:  c.Name,
@@ -110,13 +111,19 @@ func newCreateTable(ct sql.CreateTableStmt) *Schema {
 			}
 			if ct.WithoutRowid {
 				// non-rowid primary keys have a special place
-				if st.setPK([]IndexColumn{
+				pk := []IndexColumn{
 					{
 						Column:    c.Name,
 						Collate:   c.Collate,
 						SortOrder: c.PrimaryKeyDir,
 					},
-				}) {
+				}
+				if isRowid(false, c.Type, c.PrimaryKeyDir) {
+					// SQLite treats this as a rowid alias until it sees
+					// the WITHOUT ROWID at the very end, and only then
+					// makes the primary key index: after all others.
+					deferredPK = pk
+				} else if st.setPK(pk) {
 					autoindex++
 				}
 			} else {
@@ -171,7 +178,13 @@ constraint:
 				for _, co := range c.IndexedColumns {
 					st.column(co.Column).Null = false
 				}
-				if st.setPK(st.toIndexColumns(c.IndexedColumns)) {
+				pk := st.toIndexColumns(c.IndexedColumns)
+				if col := st.column(pk[0].Column); len(pk) == 1 && col != nil && isRowid(true, col.Type, pk[0].SortOrder) {
+					// see the column constraint: made last, from the
+					// column alone (a COLLATE in the constraint is lost)
+					pk[0].Collate = col.Collate
+					deferredPK = pk
+				} else if st.setPK(pk) {
 					autoindex++
 				}
 				continue
@@ -186,6 +199,9 @@ constraint:
 				autoindex++
 			}
 		}
+	}
+	if deferredPK != nil {
+		st.setPK(deferredPK)
 	}
 
 	return st
